@@ -110,6 +110,8 @@ def ref_decode(t: bytes):
         elif kind[0] == "i":
             v = imm_of(o)
             if v is None:
+                if IMM.match(o):
+                    return "!imm " + o.decode()   # a decimal immediate that no 32-bit field can hold
                 return None
             fields[kind[1]] = str(v)
         elif kind[0] == "l":
@@ -118,6 +120,8 @@ def ref_decode(t: bytes):
             fields[kind[1]] = "x" + o.hex()
         else:
             mm = MEMOP.match(o)
+            if mm and mm.group(2) in REGNO and IMM.match(mm.group(1)) and imm_of(mm.group(1)) is None:
+                return "!imm " + mm.group(1).decode()
             if not mm or mm.group(2) not in REGNO or imm_of(mm.group(1)) is None:
                 return None
             fields[kind[1]] = str(imm_of(mm.group(1)))
@@ -163,6 +167,8 @@ def oracle(text: bytes, go: str):
     for j, t in enumerate(ilines):
         exp = ref_decode(t)
         STATS["instruction_lines_decoded_independently" if exp is not None else "instruction_lines_not_canonical"] += 1
+        if exp is not None and exp.startswith("!imm "):
+            return f"operands: line {t!r} was accepted and decoded to {instrs[j]!r}, but its decimal immediate {exp[5:]} does not fit the 32-bit immediate: it cannot have been decoded to the number that was written"
         if exp is not None and exp != instrs[j]:
             return f"operands: line {t!r} decoded to {instrs[j]!r}, the named registers / decimal immediates give {exp!r}"
     return None
